@@ -346,3 +346,15 @@ func floor(rule, what string, got, min int) Ob {
 	}
 	return o
 }
+
+func init() {
+	if os.Getenv("LH_DET_DUMP") != "" {
+		c, err := Load("/repo", "quick", true)
+		if err != nil {
+			fmt.Println(err)
+			os.Exit(2)
+		}
+		detDump(c)
+		os.Exit(0)
+	}
+}
